@@ -416,6 +416,9 @@ func (c caseSpec) evalVSAll(p proxySpec, port int, req request, rd reading) []ve
 		}
 	}
 	ports := c.servicePorts()
+	if p.Kind == "sidecar" {
+		host = canonicalHost(host, p.Namespace, ports)
+	}
 	_, inRegistry := ports[host]
 
 	noVS := func() verdict {
@@ -504,6 +507,22 @@ func (c caseSpec) evalVSAll(p proxySpec, port int, req request, rd reading) []ve
 		ci = cj
 	}
 	return []verdict{noVS()}
+}
+
+// canonicalHost: the service a mesh client addresses with an authority. A name that is a registry
+// host is that service (a real name is never shadowed); otherwise the Kubernetes short forms
+// <svc>.<ns>, <svc>.<ns>.svc and (same namespace) <svc> stand for <svc>.<ns>.svc.cluster.local when
+// that is a registry host.
+func canonicalHost(host, clientNamespace string, registry map[string][]int) string {
+	if _, ok := registry[host]; ok {
+		return host
+	}
+	for _, full := range []string{host + ".svc.cluster.local", host + ".cluster.local", host + "." + clientNamespace + ".svc.cluster.local"} {
+		if _, ok := registry[full]; ok && strings.HasSuffix(full, ".svc.cluster.local") && strings.Count(host, ".") <= 2 {
+			return full
+		}
+	}
+	return host
 }
 
 // firstMatch evaluates one VirtualService: its first rule (in order) with a selected match entry
